@@ -32,7 +32,7 @@ fn panic_obs(t: &str) -> Value {
     match t {
         "media" => json!({"enc":"panic","dec":"panic","err":"panic"}),
         "gimg" => json!({"dec":"panic","err":"panic"}),
-        "ext" | "extenc" => json!({"res":"panic","ver":-1,"hash":false,"key":false,"nonce":false,"upload":false,"equal":false,"err":"panic"}),
+        "ext" | "extenc" => json!({"res":"panic","ver":-1,"hash":false,"key":false,"nonce":false,"upload":false,"equal":false,"ecls":"panic","err":"panic"}),
         _ => json!({"res":"panic","equal":false,"err":"panic"}),
     }
 }
